@@ -88,6 +88,11 @@ func wrapConsts(repo string, add func(string, int64, string)) error {
 	}
 	add("cow_mask", v, "copyOnWriteFs.go OpenFile: write path iff flag&MASK != 0")
 
+	if mk := cow.fn("CopyOnWriteFs", "Mkdir"); mk == nil {
+		return fmt.Errorf("copyOnWriteFs.go: CopyOnWriteFs.Mkdir not found")
+	} else {
+		add("cow_mkdir_checks_union", b2i(hasMethodCall(mk, "Stat")), "copyOnWriteFs.go Mkdir: 1 iff it refuses a name the union's Stat finds (overlay or base, file or directory)")
+	}
 	ca, err := parseSrc(repo, "cacheOnReadFs.go")
 	if err != nil {
 		return err
